@@ -20,6 +20,12 @@ RULE = ('ThreadSim: real threads released one at a time; yield points at '
         'random-walk and PCT schedulers.  Oracle on the decoded wire.  '
         'Non-trivial = a Close frame was written while another call was in '
         'flight; distinct = distinct (base, switch sites) signatures')
+RULE += (' '
+         'Further families: `stall` (a sender blocked 1-40 s inside sendall '
+         'while others close) and `held_generator` (no second thread but a '
+         'second finaliser: the generator of an earlier abandoned connection '
+         "is closed in the middle of the closing handshake; C08's scenario "
+         'and oracle).')
 SHRINK_LISTS = [('schedule', 'points')]
 EXPECTED_PROBES = ['old_generator_finalised_while_closing', 'stalled_writes', 'close_vs_send', 'close_vs_close', 'close_vs_loop_echo',
                    'close_vs_auto_pong', 'close_vs_auto_ping',
